@@ -617,7 +617,8 @@ class PlSqlDialect(AnsiSqlDialect):
             "or",
             "oracle",
             "oradata",
-            "order,overlaps",
+            "order",
+            "overlaps",
             "organization",
             "orlany",
             "orlvary",
@@ -1053,7 +1054,7 @@ class Db2SqlDialect(AnsiSqlDialect):
             "current_schema",
             "current_time",
             "current_timestamp",
-            "currval1",
+            "currval",
             "cursor",
             "data",
             "database",
@@ -1080,7 +1081,7 @@ class Db2SqlDialect(AnsiSqlDialect):
             "encoding",
             "encryption",
             "end",
-            "end-exec2",
+            "end-exec",
             "ending",
             "erase",
             "escape",
@@ -1095,7 +1096,7 @@ class Db2SqlDialect(AnsiSqlDialect):
             "fetch",
             "fieldproc",
             "final",
-            "first1",
+            "first",
             "for",
             "free",
             "from",
@@ -1134,7 +1135,7 @@ class Db2SqlDialect(AnsiSqlDialect):
             "key",
             "label",
             "language",
-            "last1",
+            "last",
             "lc_ctype",
             "leave",
             "left",
@@ -1157,7 +1158,7 @@ class Db2SqlDialect(AnsiSqlDialect):
             "modifies",
             "month",
             "months",
-            "next1",
+            "next",
             "nextval",
             "no",
             "none",
@@ -1167,14 +1168,14 @@ class Db2SqlDialect(AnsiSqlDialect):
             "numparts",
             "obid",
             "of",
-            "old1",
+            "old",
             "on",
             "open",
             "optimization",
             "optimize",
             "or",
             "order",
-            "organization1",
+            "organization",
             "out",
             "outer",
             "package",
@@ -1185,13 +1186,13 @@ class Db2SqlDialect(AnsiSqlDialect):
             "partitioned",
             "partitioning",
             "path",
-            "period1",
+            "period",
             "piecesize",
             "plan",
             "precision",
             "prepare",
             "prevval",
-            "prior1",
+            "prior",
             "priqty",
             "privileges",
             "procedure",
@@ -1252,9 +1253,9 @@ class Db2SqlDialect(AnsiSqlDialect):
             "style",
             "summary",
             "synonym",
-            "sysdate1",
+            "sysdate",
             "system",
-            "systimestamp1",
+            "systimestamp",
             "table",
             "tablespace",
             "then",
